@@ -3,7 +3,7 @@ import os, sys, binascii
 sys.path.insert(0, os.path.dirname(__file__))
 from _common import main
 
-BOUND = 'masking combined with a python type (string, int, long, decimal); decode / switch masking on (in place, by replacing the entry, on a copy) / decode twice more with the same configuration object; mask(): lengths 10..40, patterned/random digit and arbitrary-character inputs, 4 mask characters; loads(): PAN / PAN-PREFIX processor on LLVAR/LLLVAR elements 2,34,48,100 with values of length 10..40 (11..99 for PAN), latin_1 and cp500, binary and hex bitmap'
+BOUND = 'values with a separator / letter / blank at any position (track-2 style) under PAN / PAN-PREFIX; masking combined with a python type (string, int, long, decimal); decode / switch masking on (in place, by replacing the entry, on a copy) / decode twice more with the same configuration object; mask(): lengths 10..40, patterned/random digit and arbitrary-character inputs, 4 mask characters; loads(): PAN / PAN-PREFIX processor on LLVAR/LLLVAR elements 2,34,48,100 with values of length 10..40 (11..99 for PAN), latin_1 and cp500, binary and hex bitmap'
 
 
 def check_mask(s, c):
@@ -119,6 +119,18 @@ def cases(tier, rng):
                             continue
                         yield {'kind': 'decode', 'bit': bit, 'ftype': ftype, 'proc': proc, 'enc': enc, 'hex': hexb,
                                'pan': ''.join(rng.choice(chars) for _ in range(n))}
+    # values that are not plain digit strings (track-2 style separators, blanks, dashes, letters) at every position: the
+    # statement speaks of characters, so everything between the first six and the last four is covered
+    for sep in ('=', 'D', ' ', '-', 'F', '^'):
+        for n in (10, 12, 16, 17, 19, 28, 37):
+            for pos in sorted({0, 1, 5, 6, 7, 9, n // 2, n - 5, n - 4, n - 1}):
+                pan = ''.join(rng.choice(chars) for _ in range(n))
+                pan = pan[:pos] + sep + pan[pos + 1:]
+                for proc in ('PAN', 'PAN-PREFIX'):
+                    yield {'kind': 'decode', 'bit': 2 if n % 2 else 35, 'ftype': 'LLVAR', 'proc': proc, 'enc': 'latin_1' if pos % 2 else 'cp500', 'hex': False, 'pan': pan}
+        yield {'kind': 'decode', 'bit': 35, 'ftype': 'LLVAR', 'proc': 'PAN', 'enc': 'latin_1', 'hex': False, 'pan': '123456789' + sep + '0123456'}
+        yield {'kind': 'decode', 'bit': 35, 'ftype': 'LLVAR', 'proc': 'PAN', 'enc': 'latin_1', 'hex': False, 'pan': '5412345678901234' + sep + '25121010000012300000'}
+        yield {'kind': 'mask', 's': '5412345678901234' + sep + '2512101', 'c': None}
 
 
 if __name__ == '__main__':
